@@ -128,6 +128,10 @@ SE2TangentBase<_Derived>::exp(OptJacobianRef J_m_t) const
   const Scalar sin_theta = sin(theta);
   const Scalar theta_sq = theta * theta;
 
+  // 1-cos(theta) evaluated without cancellation
+  const Scalar sin_half_theta = sin(theta / Scalar(2));
+  const Scalar one_minus_cos_theta = Scalar(2) * sin_half_theta * sin_half_theta;
+
   Scalar A,  // sin_theta_by_theta
          B;  // one_minus_cos_theta_by_theta
 
@@ -141,7 +145,7 @@ SE2TangentBase<_Derived>::exp(OptJacobianRef J_m_t) const
   {
     // Euler
     A = sin_theta / theta;
-    B = (Scalar(1) - cos_theta) / theta;
+    B = one_minus_cos_theta / theta;
   }
 
   if (J_m_t)
@@ -160,8 +164,8 @@ SE2TangentBase<_Derived>::exp(OptJacobianRef J_m_t) const
     }
     else
     {
-      (*J_m_t)(0,2) = (-y() + theta*x() + y()*cos_theta - x()*sin_theta)/theta_sq;
-      (*J_m_t)(1,2) = ( x() + theta*y() - x()*cos_theta - y()*sin_theta)/theta_sq;
+      (*J_m_t)(0,2) = (x()*(theta - sin_theta) - y()*one_minus_cos_theta)/theta_sq;
+      (*J_m_t)(1,2) = (y()*(theta - sin_theta) + x()*one_minus_cos_theta)/theta_sq;
     }
   }
 
@@ -228,15 +232,7 @@ SE2TangentBase<_Derived>::rjacinv() const
   using std::sin;
 
   const Scalar theta = angle();
-  const Scalar cos_theta = cos(theta);
-  const Scalar sin_theta = sin(theta);
   const Scalar theta_sq = theta * theta;
-
-  Scalar A,  // theta_sin_theta
-         B;  // theta_cos_theta
-
-  A = theta*sin_theta;
-  B = theta*cos_theta;
 
   Jacobian Jrinv;
 
@@ -245,12 +241,16 @@ SE2TangentBase<_Derived>::rjacinv() const
 
   if (theta_sq > Constants<Scalar>::eps)
   {
-    Jrinv(0,0) = -A/(Scalar(2)*cos_theta-Scalar(2));
-    Jrinv(1,1) =  Jrinv(0,0);
+    // A = theta/2 * cot(theta/2)
+    const Scalar half_theta = theta*Scalar(0.5);
+    const Scalar A = half_theta * cos(half_theta) / sin(half_theta);
+    const Scalar B = (Scalar(1) - A) / theta;
 
-    Scalar den = Scalar(2)*theta*(cos_theta-Scalar(1));
-    Jrinv(0,2) = (A*x() + B*y() - theta*y() + Scalar(2)*x()*cos_theta - Scalar(2)*x()) / den;
-    Jrinv(1,2) = (-B*x() + A*y() + theta*x() + Scalar(2)*y()*cos_theta - Scalar(2)*y()) / den;
+    Jrinv(0,0) =  A;
+    Jrinv(1,1) =  A;
+
+    Jrinv(0,2) =  y()/Scalar(2) + B*x();
+    Jrinv(1,2) = -x()/Scalar(2) + B*y();
   }
   else
   {
@@ -276,9 +276,12 @@ SE2TangentBase<_Derived>::ljac() const
   using std::sin;
 
   const Scalar theta = angle();
-  const Scalar cos_theta = cos(theta);
   const Scalar sin_theta = sin(theta);
   const Scalar theta_sq = theta * theta;
+
+  // 1-cos(theta) evaluated without cancellation
+  const Scalar sin_half_theta = sin(theta / Scalar(2));
+  const Scalar one_minus_cos_theta = Scalar(2) * sin_half_theta * sin_half_theta;
 
   Scalar A,  // sin_theta_by_theta
          B;  // one_minus_cos_theta_by_theta
@@ -293,7 +296,7 @@ SE2TangentBase<_Derived>::ljac() const
   {
     // Euler
     A = sin_theta / theta;
-    B = (Scalar(1) - cos_theta) / theta;
+    B = one_minus_cos_theta / theta;
   }
 
   Jacobian Jl = Jacobian::Identity();
@@ -309,8 +312,8 @@ SE2TangentBase<_Derived>::ljac() const
   }
   else
   {
-    Jl(0,2) = ( y() + theta*x() - y()*cos_theta - x()*sin_theta)/theta_sq;
-    Jl(1,2) = (-x() + theta*y() + x()*cos_theta - y()*sin_theta)/theta_sq;
+    Jl(0,2) = (x()*(theta - sin_theta) + y()*one_minus_cos_theta)/theta_sq;
+    Jl(1,2) = (y()*(theta - sin_theta) - x()*one_minus_cos_theta)/theta_sq;
   }
 
   return Jl;
@@ -325,15 +328,7 @@ SE2TangentBase<_Derived>::ljacinv() const
   using std::sin;
 
   const Scalar theta = angle();
-  const Scalar cos_theta = cos(theta);
-  const Scalar sin_theta = sin(theta);
   const Scalar theta_sq = theta * theta;
-
-  Scalar A,  // theta_sin_theta
-         B;  // theta_cos_theta
-
-  A = theta*sin_theta;
-  B = theta*cos_theta;
 
   Jacobian Jlinv;
 
@@ -342,12 +337,16 @@ SE2TangentBase<_Derived>::ljacinv() const
 
   if (theta_sq > Constants<Scalar>::eps)
   {
-    Jlinv(0,0) = -A/(Scalar(2)*cos_theta-Scalar(2));
-    Jlinv(1,1) =  Jlinv(0,0);
+    // A = theta/2 * cot(theta/2)
+    const Scalar half_theta = theta*Scalar(0.5);
+    const Scalar A = half_theta * cos(half_theta) / sin(half_theta);
+    const Scalar B = (Scalar(1) - A) / theta;
 
-    Scalar den = Scalar(2)*theta*(cos_theta-Scalar(1));
-    Jlinv(0,2) = (A*x() - B*y() + theta*y() + Scalar(2)*x()*cos_theta - Scalar(2)*x()) / den;
-    Jlinv(1,2) = (B*x() + A*y() - theta*x() + Scalar(2)*y()*cos_theta - Scalar(2)*y()) / den;
+    Jlinv(0,0) = A;
+    Jlinv(1,1) = A;
+
+    Jlinv(0,2) = -y()/Scalar(2) + B*x();
+    Jlinv(1,2) =  x()/Scalar(2) + B*y();
   }
   else
   {
